@@ -56,8 +56,8 @@ func newOs2(os tables.Os2) (os2, error) {
 		if len(os.HigherVersionData) < 12 {
 			return os2{}, errors.New("invalid table os2")
 		}
-		out.sxHeigh = float32(binary.BigEndian.Uint16(os.HigherVersionData[8:]))
-		out.sCapHeight = float32(binary.BigEndian.Uint16(os.HigherVersionData[10:]))
+		out.sxHeigh = float32(int16(binary.BigEndian.Uint16(os.HigherVersionData[8:])))
+		out.sCapHeight = float32(int16(binary.BigEndian.Uint16(os.HigherVersionData[10:])))
 	}
 
 	const useTypoMetrics = 1 << 7
